@@ -1,7 +1,7 @@
 (* The serde data model (the calls a Serialize implementation makes), and the documented
    Rust -> Arrow mapping: which logical value a serde value denotes in a column of a given field,
    for every presentation the column accepts. *)
-From Verif Require Export Arr Wf.
+From Verif Require Export Arr Wf FloatOfInt.
 Local Open Scope Z_scope.
 
 Inductive Value :=
@@ -83,8 +83,9 @@ Definition prim_scalar (k : PrimKind) (v : Value) : IRes :=
   | PF16, (VF32 _ | VF64 _) => ISkip
   | PF32, VF64 _ => ISkip
   | PF64, VF32 _ => ISkip
-  | (PF32 | PF64), VInt _ _ => ISkip
-  | (PF32 | PF64), VChar _ => ISkip
+  (* FloatBuilder: integers of every width and chars are cast (`v as f32` / `v as f64`): nearest, ties to even *)
+  | PF32, (VInt _ z | VChar z) => IOk (LInt (f32_of_int z))
+  | PF64, (VInt _ z | VChar z) => IOk (LInt (f64_of_int z))
   | (PDate32 | PTime32 _), VInt (I32 | I64) z => if in_int I32 z then IOk (LInt z) else IReject
   | (PDate64 | PTime64 _), VInt (I32 | I64) z => IOk (LInt z)
   | PTimestamp _ _, VInt I64 z => IOk (LInt z)
